@@ -59,10 +59,51 @@ def ev(e, env):
     raise Unknown(s.nsrc)
 
 
-def run(fn, env, max_steps=10000):
-    """Execute fn with parameter values env; returns the ReturnStmt node reached (or None for falling off the end)."""
+def run(fn, env, max_steps=10000, want_env=False):
+    """Execute fn with parameter values env; returns the ReturnStmt node reached (or None for falling off the end); with
+    want_env also the final environment."""
     g = _cfg.build_c(fn)
     env = dict(env)
+    if want_env:
+        return _run(fn, g, env, max_steps), env
+    return _run(fn, g, env, max_steps)
+
+
+def returned(fn, env, tu, depth=0):
+    """(value, return node) of fn for parameter values env, where value is an int, the name of an HDF5 type constant
+    (H5T_...), or None if the function falls off its end.  The return expression may be a conditional expression over evaluable
+    conditions or a call of another function of the translation unit with evaluable arguments (followed, depth <= 4)."""
+    import re
+    ret, env2 = run(fn, env, want_env=True)
+    if ret is None or not ret.children:
+        return None, ret
+
+    def val(e):
+        t = e.strip(casts=True)
+        if t.kind == "ConditionalOperator":
+            return val(t.children[1] if ev(t.children[0], env2) else t.children[2])
+        if t.kind == "CallExpr" and t.callee in tu.functions and depth < 4:
+            callee = tu.functions[t.callee]
+            ps = [p.name for p in callee.children if p.kind == "ParmVarDecl"]
+            args = {p: ev(a, env2) for p, a in zip(ps, t.args)}
+            return returned(callee, args, tu, depth + 1)[0]
+        m = re.search(r"H5T_[A-Z0-9_]+", t.nsrc)
+        if m:
+            return m.group(0)
+        try:
+            return ev(t, env2)
+        except Unknown:
+            iv = t.intval()
+            if iv is not None:
+                return iv
+            raise AnalysisError("%s: cannot evaluate the returned expression `%s`" % (fn.name, t.nsrc[:60]))
+    try:
+        return val(ret.children[0]), ret
+    except Unknown as e:
+        raise AnalysisError("%s: cannot evaluate the returned expression `%s` (%s unknown)" % (fn.name, ret.nsrc[:60], e))
+
+
+def _run(fn, g, env, max_steps=10000):
     cur = g.entry.id
     steps = 0
     while True:
@@ -168,6 +209,7 @@ class Machine(object):
         self.fn = fn
         self.env = dict(env)
         self.oracle = oracle or (lambda name, args, node: None)
+        self.depth = 0
         self.trace = []
         self.max_steps = max_steps
 
@@ -214,6 +256,30 @@ class Machine(object):
                     args.append(self.ev(a))
                 except Unknown:
                     args.append(None)
+            callee = self.fn.tu.functions.get(name) if getattr(self.fn, "tu", None) is not None else None
+            if callee is not None:
+                v0 = self.oracle(name, args, s)
+                if v0 is not None:          # the oracle answers for this function (e.g. the host byte order probe)
+                    self.trace.append((name, args, s))
+                    return v0
+            if callee is not None and name != self.fn.name and self.depth < 3:
+                # a function of the same translation unit: interpreted too (its calls are traced by the same oracle), with the
+                # caller's object fields visible and its own parameters bound to the argument values
+                ps = [p.name for p in callee.children if p.kind == "ParmVarDecl"]
+                sub = Machine(callee, dict(self.env), oracle=self.oracle, max_steps=self.max_steps)
+                sub.depth = self.depth + 1
+                sub.trace = self.trace
+                for pn, av in zip(ps, args):
+                    if av is None:
+                        sub.env.pop(pn, None)
+                    else:
+                        sub.env[pn] = av
+                mark = len(self.trace)
+                try:
+                    return sub.run()
+                except AnalysisError:
+                    # not interpretable (e.g. it works on raw memory): an opaque call, as for functions outside the unit
+                    del self.trace[mark:]
             self.trace.append((name, args, s))
             v = self.oracle(name, args, s)
             if v is None:
